@@ -337,7 +337,7 @@ def gen_spec(base_seed, i, W):
                     call = first if rng.random() < 0.5 else (first[0], first[1], first[2], rng.random() < 0.5)
             calls.append(call)
         threads.append(calls)
-    if info.get("pairs") and i % 16 in (4, 7, 12) and not (info["deep"] or info["medium"]):
+    if info.get("pairs") and i % 16 in (4, 12) and not (info["deep"] or info["medium"]):
         # one encoder and one decoder call that meet on the same, so far unseen, atom symbols
         x, y = info["pairs"][rng.randrange(len(info["pairs"]))]
         threads[0][0] = ("encode", x, rng.random() < 0.3, False)
@@ -397,7 +397,7 @@ def gen_spec(base_seed, i, W):
     spec = {"table": K, "threads": threads, "policy": policy, "seed": "%d:schedsim:sched:%d" % (base_seed, i),
             "budget": 50 * total + 20000, "probes": probes, "theme": theme, "info": info,
             "wall": 600.0 if gran else 240.0, "pre": list(pre)}
-    if i % 16 in (2, 9, 13) and not gran and not info["flood"]:
+    if i % 16 == 13 and not gran and not info["flood"]:
         # warm start: the same calls were served once, serially, under another table before the
         # table in force was set (a rng of its own: the rest of the run is what it was)
         wrng = random.Random("%d:schedsim:warm:%d" % (base_seed, i))
